@@ -637,11 +637,34 @@ def open_handle_cases(prefix, kinds):
     rng = random.Random(29)
     cases = []
     for kind in kinds:
-        for variant in ("recreate_observe", "recreate_then_append", "append_observe", "two_creates"):
+        variants = ["recreate_observe", "recreate_then_append", "append_observe", "two_creates"]
+        if kind.startswith("ovl") or kind == "alt_ovl":
+            variants += ["append_lower_observe", "append_lower_two_sessions"]
+        for variant in variants:
             c = vfx.Case("%s_openh_%s_%s" % (prefix, kind, variant))
             g = build_config(c, kind, rng)
             c.cfg = g
             t = g.target
+            if variant.startswith("append_lower") and not g.prepop:
+                continue
+            if variant.startswith("append_lower"):
+                # the file exists in the lower layer only: the overlay has to copy it up when it is opened for appending,
+                # and the copy must be in place - not only in the handle - from that moment on
+                lo, sub = g.prepop[0]
+                base = sub[1:] + "/" if sub else ""
+                write_file(c, lo, base + "f", b"lower content")
+                c.op("snap", t)
+                c.first_snap = c.nops - 1
+                h = c.op("appendfile", vfx.ps(t, "f"))
+                c.op("metadata", vfx.ps(t, "f")); c.op("readtostring", vfx.ps(t, "f")); c.op("snap", t)
+                if variant == "append_lower_two_sessions":
+                    h2 = c.op("appendfile", vfx.ps(t, "f")); c.op("hwrite", h2, vfx.hexs(b" second")); c.op("hdrop", h2); c.op("snap", t)
+                c.op("hwrite", h, vfx.hexs(b" first"))
+                c.op("hdrop", h)
+                c.op("snap", t)
+                c.op("readtostring", vfx.ps(t, "f"))
+                cases.append(c)
+                continue
             write_file(c, t, "f", b"first content")
             c.op("snap", t)
             c.first_snap = c.nops - 1
@@ -691,6 +714,41 @@ def dotted_name_cases(prefix, kinds):
         for w in g.watch:
             c.op("snap", w)
         cases.append(c)
+    return cases
+
+
+def wo_names_cases(prefix, kinds=("ovl_mm", "ovl_sub", "ovl_mmm", "alt_ovl")):
+    """entry names that merely END in the overlay's marker suffix (x_wo next to x; y_wo_wo) - ordinary files, none of
+    them a directory with entries (that is finding D28): removing one must not touch its neighbours in any listing"""
+    rng = random.Random(37)
+    cases = []
+    for kind in kinds:
+        for where in ("root", "sub"):
+            c = vfx.Case("%s_wonames_%s_%s" % (prefix, kind, where))
+            g = build_config(c, kind, rng)
+            c.cfg = g
+            t = g.target
+            lo, sub = g.prepop[0]
+            base = sub[1:] + "/" if sub else ""
+            d = "" if where == "root" else "d/"
+            if d:
+                c.op("createdirall", vfx.ps(lo, base + "d"))
+            for n in ("x", "x_wo", "y_wo", "y_wo_wo", "z"):
+                write_file(c, lo, base + d + n, n.encode())
+            c.op("snap", t)
+            c.first_snap = c.nops - 1
+            listing = "%d:" % t if not d else vfx.ps(t, "d")
+            for victim in ("x_wo", "y_wo_wo"):
+                c.op("removefile", vfx.ps(t, d + victim))
+                c.op("readdir", listing); c.op("exists", vfx.ps(t, d + "x")); c.op("exists", vfx.ps(t, d + "y_wo"))
+                c.op("walkdir", "%d:" % t); c.op("snap", t)
+            write_file(c, t, d + "x_wo", b"again")
+            c.op("readdir", listing); c.op("snap", t)
+            c.op("removefile", vfx.ps(t, d + "x"))
+            c.op("readdir", listing); c.op("exists", vfx.ps(t, d + "x_wo")); c.op("snap", t)
+            for w in g.watch:
+                c.op("snap", w)
+            cases.append(c)
     return cases
 
 
